@@ -101,7 +101,7 @@ def plan(tier, seed):
 
 
 def minimums(tier):
-    return {"ilog.calls_checked": 2000, "ilog.entries_checked": 20000, "get_entry.checked": 20000, "shipped.entries_checked": 2000,
+    return {"ilog.calls_checked": 2000, "ilog.entries_checked": 20000, "get_entry.checked": 20000, "shipped.entries_checked": 1200,
             "workload.reported_error_ptes": 1500, "workload.partial_trailing": 300, "peltool.io_section_runs": 30, "peltool.io_sections_compared": 30, "layout.compared": 40,
             "layout.decoded_in_plain_tree": 40, "script.runs_with_own_tables": 12}
 
